@@ -11,7 +11,10 @@ RULE = ("(a) actions for Display: a multi-byte character of each width (2/3/4 by
         "extended the way `vespertide revision` does and sometimes by hand-written raw SQL migrations, plus FK-shaped model sets and a systematic "
         "single-column FK-chain stream (head -> tail of 0..3 FK columns -> cycle of 0..3 FK columns: acyclic chains, cycles, rho shapes = tail "
         "INTO a cycle; across tables, inside one table, through key columns; two table orders; each table rendered with the whole slice as "
-        "context in a child process, so a stack overflow or hang is an outcome of that case); every project runs plan_next_migration, build_plan_queries + .build for 3 backends for the new and every recorded plan, "
+        "context in a child process, so a stack overflow or hang is an outcome of that case) and a relation-enum collision stream (tables named "
+        "`_`, `__`, `-`, `_-_`, `--`, `2`, `9x`, `!`, ... carrying FKs whose relation enums collide: owner_id + owner [+ owner-id], two composite FKs "
+        "sharing their leading column); every in-process render runs on its own thread under a 2 s wall-clock cap, so an endless loop is the "
+        "outcome `diverged` of that table; every project runs plan_next_migration, build_plan_queries + .build for 3 backends for the new and every recorded plan, "
         "Display of every action and the 3 exporters, in subprocess batches with a wall-clock cap per stage; "
         "non-trivial = distinct (by hash) project with >= 2 tables or a non-empty history, or distinct action with a non-ASCII string")
 C16_CLS = ["sqlite_numeric", "sqlite_interval", "history_rawsql", "models_fk_cycle", "plan_cycle"]
